@@ -1,1 +1,116 @@
-import HdModel.Spec.Pool
+import HdModel.Props.C05
+/-! # C04 — idle connections are reused; HTTP/2 requests to an origin share one connection
+
+Step-level theorems about the pool model, valid in **every** state. -/
+namespace Hd.Pool
+
+/-- **C04 (reuse).** When `pop` finds an open, ready, unexpired idle connection for the origin, the
+    new checkout is equipped with it and no connection attempt is prepared … -/
+theorem C04_reuse_issue (s : State) (r : ReqId) (k : KeyId) (mux : Bool) (t : Token) (c : ConnId) :
+    (issueFound s r k mux t c).co r =
+      some { key := k, token := t, mux := mux, waiter := .idle, inner := .connected, conn := some c } ∧
+    (issueFound s r k mux t c).dialCount = s.dialCount ∧
+    (issueFound s r k mux t c).connecting = s.connecting := by
+  unfold issueFound
+  refine ⟨by simp, ?_, ?_⟩ <;> (simp only []; split <;> rfl)
+
+/-- The state `issue` works on after the token lookup and the `pop`. -/
+def afterPop (s : State) (k : KeyId) : State :=
+  let tk := tokenOf s k
+  let pr := idlePop tk.1 (tk.1.idle tk.2)
+  noteDropped { tk.1 with idle := upd tk.1.idle tk.2 pr.2.1 } pr.2.2
+
+theorem issue_found (s : State) (r : ReqId) (k : KeyId) (mux : Bool) (c : ConnId)
+    (hpop : (idlePop (tokenOf s k).1 ((tokenOf s k).1.idle (tokenOf s k).2)).1 = some c) :
+    issue s r k mux = issueFound (afterPop s k) r k mux (tokenOf s k).2 c := by
+  unfold issue afterPop; simp only [hpop]
+
+theorem issue_missing (s : State) (r : ReqId) (k : KeyId) (mux : Bool)
+    (hpop : (idlePop (tokenOf s k).1 ((tokenOf s k).1.idle (tokenOf s k).2)).1 = none) :
+    issue s r k mux = issueMissing (afterPop s k) r k mux (tokenOf s k).2 := by
+  unfold issue afterPop; simp only [hpop]
+
+/-- … and its first poll hands that very connection out without any dial. -/
+theorem C04_reuse_poll (s : State) (r : ReqId) (co : Checkout) (c : ConnId)
+    (hcn : co.conn = some c) (hi : co.inner = .connected) (hw : co.waiter = .idle)
+    (hch : ∀ p, s.chan r ≠ .full p) :
+    (∃ p, (pollCheckout s r co).2.2 = .got p ∧ p.conn = c) ∧
+    (pollCheckout s r co).1.dialCount = s.dialCount := by
+  unfold pollCheckout pollWaiter
+  cases hch' : s.chan r with
+  | full p => exact absurd hch' (hch p)
+  | txGone =>
+    simp only [hw, hi, hcn]
+    refine ⟨⟨_, rfl, ?_⟩, ?_⟩
+    · unfold checkedOut; split <;> rfl
+    · unfold dropRx; simp [hch']
+  | empty =>
+    simp only [hw, hi, hcn]
+    refine ⟨⟨_, rfl, ?_⟩, ?_⟩
+    · unfold checkedOut; split <;> rfl
+    · unfold dropRx; simp [hch']
+  | none =>
+    simp only [hw, hi, hcn]
+    refine ⟨⟨_, rfl, ?_⟩, ?_⟩
+    · unfold checkedOut; split <;> rfl
+    · unfold dropRx; simp [hch']
+  | rxGone =>
+    simp only [hw, hi, hcn]
+    refine ⟨⟨_, rfl, ?_⟩, ?_⟩
+    · unfold checkedOut; split <;> rfl
+    · unfold dropRx; simp [hch']
+
+/-- **C04 (share).** Taking a shareable connection out of the idle list leaves it available: it is
+    again at the head of the origin's idle list when `checkout` returns, so concurrent and later
+    requests find it. -/
+theorem C04_share_stays_pooled (s : State) (r : ReqId) (k : KeyId) (mux : Bool) (t : Token) (c : ConnId)
+    (hsh : canShare s c = true) :
+    (issueFound s r k mux t c).idle t = (c, s.now) :: s.idle t := by
+  unfold issueFound
+  simp [hsh]
+
+/-- **C04 (dedup).** While a multiplexed attempt for the origin is in flight (marker set) and
+    nothing is idle, a newly issued request becomes a pure waiter that owns no marker … -/
+theorem C04_dedup_issue (s : State) (r : ReqId) (k : KeyId) (mux : Bool) (t : Token)
+    (hm : s.connecting.contains t = true) :
+    (issueMissing s r k mux t).co r =
+      some { key := k, token := t, mux := mux, waiter := .connecting, inner := .waiting } ∧
+    r ∈ (issueMissing s r k mux t).waiting t ∧ (issueMissing s r k mux t).chan r = .empty := by
+  have hm' : t ∈ s.connecting := by simpa using hm
+  unfold issueMissing
+  simp [hm']
+
+/-- … and polling a pure waiter never dials. -/
+theorem C04_dedup_poll (s : State) (r : ReqId) (c : Checkout) (hi : c.inner = .waiting) :
+    (pollCheckout s r c).1.dialCount = s.dialCount := by
+  unfold pollCheckout
+  have hw : (pollWaiter s r c).1.dialCount = s.dialCount ∧ (pollWaiter s r c).2.1.inner = c.inner := by
+    unfold pollWaiter
+    split
+    · split <;> simp
+    · split <;> simp
+    · simp
+  generalize pollWaiter s r c = res at hw
+  obtain ⟨s1, c1, w⟩ := res
+  simp only [] at hw ⊢
+  cases w with
+  | none => exact hw.1
+  | some o =>
+    cases o with
+    | some p => exact hw.1
+    | none =>
+      simp only []
+      rw [hw.2, hi]
+      exact hw.1
+
+/-- A request for a multiplexed connection that starts the attempt places the marker and owns it;
+    a non-multiplexed one places none. -/
+theorem C04_marker_owner (s : State) (r : ReqId) (k : KeyId) (mux : Bool) (t : Token)
+    (hm : s.connecting.contains t = false) :
+    ∃ co, (issueMissing s r k mux t).co r = some co ∧ co.marker = mux ∧
+      ((issueMissing s r k mux t).connecting.contains t = mux) := by
+  have hm' : t ∉ s.connecting := by simpa using hm
+  unfold issueMissing
+  cases mux <;> simp [hm']
+
+end Hd.Pool
